@@ -13,6 +13,7 @@ import (
 	"path/filepath"
 	"sort"
 	"strings"
+	"time"
 
 	"golang.org/x/crypto/bcrypt"
 )
@@ -23,10 +24,41 @@ type result struct {
 	status  int
 	body    string
 	ctype   string
-	paniced bool
+	header  http.Header
+	paniced bool // the handler panicked (recovered here) or never returned
 }
 
-func serve(method, path string, c cred, b body) (res result) {
+const handlerDeadline = 60 * time.Second
+
+// serveOn runs one request on h under recover() and a watchdog: a handler
+// that panics, or does not return, gives no HTTP response.
+func serveOn(h http.Handler, req *http.Request) (res result) {
+	rec := httptest.NewRecorder()
+	done := make(chan string, 1)
+	go func() {
+		defer func() {
+			if r := recover(); r != nil {
+				done <- fmt.Sprint("panic: ", r)
+				return
+			}
+			done <- ""
+		}()
+		h.ServeHTTP(rec, req)
+	}()
+	select {
+	case msg := <-done:
+		if msg != "" {
+			return result{paniced: true, body: msg}
+		}
+	case <-time.After(handlerDeadline):
+		return result{paniced: true, body: "no return from the handler within " + handlerDeadline.String()}
+	}
+	r := rec.Result()
+	bb, _ := io.ReadAll(r.Body)
+	return result{status: r.StatusCode, body: string(bb), ctype: r.Header.Get("Content-Type"), header: r.Header}
+}
+
+func serve(method, path string, c cred, b body) result {
 	req := httptest.NewRequest(method, "http://localhost"+path, strings.NewReader(b.data))
 	if c.header != "" {
 		req.Header.Set("Authorization", c.header)
@@ -34,22 +66,7 @@ func serve(method, path string, c cred, b body) (res result) {
 	if b.ctype != "" {
 		req.Header.Set("Content-Type", b.ctype)
 	}
-	rec := httptest.NewRecorder()
-	func() {
-		defer func() {
-			if r := recover(); r != nil {
-				res.paniced = true
-				res.body = fmt.Sprint(r)
-			}
-		}()
-		apiHandler.ServeHTTP(rec, req)
-	}()
-	if res.paniced {
-		return
-	}
-	r := rec.Result()
-	bb, _ := io.ReadAll(r.Body)
-	return result{status: r.StatusCode, body: string(bb), ctype: r.Header.Get("Content-Type")}
+	return serveOn(apiHandler, req)
 }
 
 // bodyDigest: the canonical rendering of a response body, in the format of
@@ -173,11 +190,13 @@ func (w *world) do(method string, sh shape, c cred, b body) result {
 	res := serve(method, sh.path, c, b)
 
 	t.Checked("C17.responds")
+	t.Checked("C12.http_responds")
 	if res.paniced {
-		msg := fmt.Sprintf("handler panicked: %s %s [%s] body %s: %s", method, sh.path, c.name, b.enc, res.body)
+		msg := fmt.Sprintf("no HTTP response (handler panicked): %s %s [%s] body %s: %s", method, sh.path, c.name, b.enc, res.body)
 		t.Op("panic", "req", method, sh.path, c.enc, b.enc)
 		t.Fail("C17", "responds", msg)
-		t.Fail("C12", "api_handler_panicked", msg)
+		t.Fail("C12", "http_responds", msg)
+		w.cur = nil
 		return res
 	}
 	w.cur = nil
